@@ -35,6 +35,10 @@ func c18Client(w *world.LW, role string) {
 		b.CalculateBalance(ctx, A.Addr)
 	case "history":
 		b.ReadDAGTransactionsByAddress(ctx, A.Addr)
+	case "readvertex":
+		// look-up by hash of the oldest vertices: served from the live graph without the ledger lock
+		b.ReadVertex(ctx, w.Genesis.Hash)
+		b.ReadVertex(ctx, c08Tip[w].hash)
 	case "readtrx":
 		b.ReadTransactionByHash(ctx, w.Genesis.Transaction.Hash)
 	case "stream":
@@ -164,6 +168,7 @@ func c18Scenarios() map[string]*sched.Scenario {
 	add("S4/truncate+create+balance", "truncate", "create", "balance")
 	add("S5/orphan+create+readtrx+history", "orphan", "create", "readtrx", "history")
 	add("S6/orphan+tick+create+stream+loaded", "orphan", "tick", "create", "stream", "loaded")
+	add("S9/truncate+readvertex+stream", "truncate", "readvertex", "stream")
 	addTrig := func(name string, roles ...string) {
 		m[name] = &sched.Scenario{Name: name, Params: []int{0}, Opt: opt, Body: c18TriggerBody(roles), Oracle: c18Oracle(name),
 			Setup:       func() { world.GetNodes("G") },
